@@ -21,19 +21,19 @@ claim("C06",
 
 claim("C10",
   "ownership (who touches the stream / who calls raw Read-Write) + must-pass-once path rules over SSA + lockset",
-  "Decides that Message.Write hands its writer to exactly one WriteN call with the bytes of a private buffer filled header-then-payload, refuses size mismatch, that the endpoint's stream is only used by Send→Message.Write, process→Message.Read, Close and String, that WriteN hands the whole remaining buffer to each Write, that process dispatches synchronously between reads (directly or through a receive helper of its own), that a handler slot is found and filled in one critical section, and that enqueueing is non-blocking, under the handler mutex, only on the matching filter and offered to every handler. The goroutine draining an AddHandler queue does not select between the queue and another channel (accepted messages are not abandoned).",
+  "Decides that Message.Write hands its writer to exactly one WriteN call with the bytes of a private buffer filled header-then-payload, refuses size mismatch, that the endpoint's stream is only used by Send→Message.Write, process→Message.Read, Close and String, that WriteN hands the whole remaining buffer to each Write, that process dispatches synchronously between reads (directly or through a receive helper of its own), that a handler slot is found and filled in one critical section, and that enqueueing is non-blocking, under the handler mutex, only on the matching filter and offered to every handler. The goroutine draining an AddHandler queue does not select between the queue and another channel (accepted messages are not abandoned). ",
   "Atomicity of one Write on each transport and per-sender ordering under all schedules are not decided.",
   "DESIGN.md §3 C10")
 
 claim("C11",
   "guarded reachability / must-pass path rules over SSA, channel-capacity and select-shape checks",
-  "Decides that every read error leads to closeWith(err) and leaves the loop, that shutdown closes the stream and every registered handler with the error, that the reply handler is registered before the send and removed on send failure, that every queue whose filter can match is buffered (dispatch never blocks), that client.Call waits on error channel, reply queue (closed ⇒ error) and cancel together, and that subscription channels are closed exactly once per goroutine exit. The stream must be closed before the handler mutex is taken (a call registering after the sweep then fails on its send); every handler has a queue of its own (C17.queue-owner, shared).",
+  "Decides that every read error leads to closeWith(err) and leaves the loop, that shutdown closes the stream and every registered handler with the error, that the reply handler is registered before the send and removed on send failure, that every queue whose filter can match is buffered (dispatch never blocks), that client.Call waits on error channel, reply queue (closed ⇒ error) and cancel together, and that subscription channels are closed exactly once per goroutine exit. The stream must be closed before the handler mutex is taken (a call registering after the sweep then fails on its send); every handler has a queue of its own (C17.queue-owner, shared). The subscription's handler is removed only by its forwarding goroutine on the abort path; a transport error ends the read loop (C08.error-flow on bus/net, shared).",
   "'Bounded time', exactly-once firing under races and every fault position of every I/O call are runtime properties and not decided.",
   "DESIGN.md §3 C11")
 
 claim("C12",
   "call-graph reachability (CHA/VTA) from callbacks run under the endpoint lock + error-flow in generated stubs + guarded reachability",
-  "Decides that closers/filters (which run under handlersMutex) cannot re-acquire it or block, that dispatch never blocks and answers a full-queue Call with an Error, that every argument-decoding error in a generated stub becomes SendError without calling the method, that unknown service/object/action are answered, that removal entry points delete exactly the id named, and that no explicit panic is reachable from a Receive implementation. Nothing called with a mutex of bus/** held comes back, through the call graph (callbacks by type flow), to an acquisition of a mutex of that class (C12.locks reentrant-through); a wire integer indexes or slices only behind a comparison with the length indexed (C07.wire-index).",
+  "Decides that closers/filters (which run under handlersMutex) cannot re-acquire it or block, that dispatch never blocks and answers a full-queue Call with an Error, that every argument-decoding error in a generated stub becomes SendError without calling the method, that unknown service/object/action are answered, that removal entry points delete exactly the id named, and that no explicit panic is reachable from a Receive implementation. Nothing called with a mutex of bus/** held comes back, through the call graph (callbacks by type flow), to an acquisition of a mutex of that class (C12.locks reentrant-through); a wire integer indexes or slices only behind a comparison with the length indexed (C07.wire-index). No struct holding a mutex is copied; an error value built in bus/** is returned, sent, logged or stored, never dropped (C12.errors-reported).",
   "Liveness under floods, implicit panics and C07's unbounded allocations are not decided. D10 (self-deadlock through signal/disconnect closers) was found by this rule, repaired in /repo (63a82dd) and is recorded as fixed in known_findings.txt.",
   "DESIGN.md §3 C12")
 
@@ -45,19 +45,19 @@ claim("C13",
 
 claim("C14",
   "guarded reachability and must-pass-once path rules over SSA, lockset guarded-by, error-flow in generated property code",
-  "Decides validate→save→notify (save and event only across a nil verdict, once each, save first, same bytes) in both the client-write and service-write paths, that the property table is mutex-protected and Property returns what saveProperty stored, that generated onPropertyChange never calls the validator on undecodable bytes and generated getters compare the signature before decoding.",
+  "Decides validate→save→notify (save and event only across a nil verdict, once each, save first, same bytes) in both the client-write and service-write paths, that the property table is mutex-protected and Property returns what saveProperty stored, that generated onPropertyChange never calls the validator on undecodable bytes and generated getters compare the signature before decoding. The signal table rules of C13 (duplicate ids refused, own entry removed, no lock copies) are part of this check.",
   "Linearizability of concurrent get/set histories is not decided.",
   "DESIGN.md §3 C14")
 
 claim("C15",
   "lockset guarded-by + guarded reachability and must-pass path rules over SSA",
-  "Decides that the registry state is only touched under its mutex on both the mailbox and the direct path, that ids only increase and the id handed out is read after the increment, that a name present in staging or services refuses registration before the insert, that services[id] is only filled from staging[id] (deleted) or by a name/id-preserving guarded update, that lookup/list never read staging, and that added/removed are emitted exactly once per transition with the entry's id and name and nowhere else.",
+  "Decides that the registry state is only touched under its mutex on both the mailbox and the direct path, that ids only increase and the id handed out is read after the increment, that a name present in staging or services refuses registration before the insert, that services[id] is only filled from staging[id] (deleted) or by a name/id-preserving guarded update, that lookup/list never read staging, and that added/removed are emitted exactly once per transition with the entry's id and name and nowhere else. Once the table has been changed a registry operation reports success on every path (committed means success).",
   "Linearizability and sequential conformance to a reference model are runtime properties and not decided.",
   "DESIGN.md §3 C15")
 
 claim("C16",
   "lockset (pairing, guarded-by) + table-agreement within critical sections + guarded reachability over SSA",
-  "Decides that object and mailbox tables change together under the same key in one critical section, that Remove deletes a found entry under the exclusive lock and runs OnTerminate exactly once on it outside the lock, that unknown ids are errors, that Add stores only under an id whose lookup failed, and that OnTerminate tells every remaining subscriber. The identifier under which Add stores is behind a failed lookup of that very identifier (D23, fixed); no blocking channel operation under the service lock (C12.locks, shared).",
+  "Decides that object and mailbox tables change together under the same key in one critical section, that Remove deletes a found entry under the exclusive lock and runs OnTerminate exactly once on it outside the lock, that unknown ids are errors, that Add stores only under an id whose lookup failed, and that OnTerminate tells every remaining subscriber. The identifier under which Add stores is behind a failed lookup of that very identifier (D23, fixed); no blocking channel operation under the service lock (C12.locks, shared). The error of Activate reaches the caller of Add and the object is installed only where it is nil (C16.activation).",
   "Behaviour under concurrent add/remove/terminate histories is not decided. D18 (Add on a session-less service created no mailbox) was first a known finding and is fixed in /repo (d8d70b8).",
   "DESIGN.md §3 C16")
 
@@ -83,7 +83,7 @@ claim("C08",
 
 claim("C01",
   "wire-shape extraction over SSA and comparison with the documentation + guarded reachability + ownership of the stream",
-  "Decides the layout and refusal clauses from the source: shape(Header.Write) = shape(Header.Read) = struct header_t of the documentation (order, widths, 28 bytes), magic big-endian and every primitive little-endian with the width of its Go type (derived from the primitive bodies); nil from Header.Read only across valid magic/version/type; payload allocation and read only behind a validated header and Size <= MaxPayloadSize; exactly two exact reads on the stream, payload always assigned; ReadN/WriteN retry loops complete and accept data arriving with EOF; one buffered write per message.",
+  "Decides the layout and refusal clauses from the source: shape(Header.Write) = shape(Header.Read) = struct header_t of the documentation (order, widths, 28 bytes), magic big-endian and every primitive little-endian with the width of its Go type (derived from the primitive bodies); nil from Header.Read only across valid magic/version/type; payload allocation and read only behind a validated header and Size <= MaxPayloadSize; exactly two exact reads on the stream, payload always assigned; ReadN/WriteN retry loops complete and accept data arriving with EOF; one buffered write per message. Nobody but ReadN pulls header or payload off the stream (C08.readn-calls, shared); a length compared with a limit through a local variable or a parameter is followed to the limit it names.",
   "Value-level round trip for all field values, lengths and fragmentations is not decided; encoding/binary trusted.",
   "DESIGN.md §3 C01")
 
@@ -107,7 +107,7 @@ claim("C09",
 
 claim("C18",
   "table agreement between IDL printers and IDL grammar (AST constants) + component-registration and assertion checks over SSA",
-  "Decides that every IDL type name printed is parsed back by the same constructor, that composite and line-level tokens printed are atoms of the parser, that the uid is read back as printed into a uint32, that composite types register all their components, and that IDL node builders assert unchecked only to terminals. The IDL parser's entry points use no package-level variable that changes after initialisation (C18.stateless); no address of a loop variable shared by all iterations is kept beyond its iteration (C18.loop-variables). A type reference hands a question on to the type it designates only while marked as being visited and refuses to resolve while marked (C18.recursion; D24, fixed).",
+  "Decides that every IDL type name printed is parsed back by the same constructor, that composite and line-level tokens printed are atoms of the parser, that the uid is read back as printed into a uint32, that composite types register all their components, and that IDL node builders assert unchecked only to terminals. The IDL parser's entry points use no package-level variable that changes after initialisation (C18.stateless); no address of a loop variable shared by all iterations is kept beyond its iteration (C18.loop-variables). A type reference hands a question on to the type it designates only while marked as being visited and refuses to resolve while marked (C18.recursion; D24, fixed). A declaration parsed is registered in the scope on every successful path of its parser, not on one branch of several.",
   "Identity on all meta-objects and parser totality on arbitrary text are not decided. Declared names (struct, field, action) are printed as stored. D14 (void printed as 'nothing') was repaired in /repo.",
   "DESIGN.md §3 C18")
 
